@@ -26,10 +26,30 @@ pub struct C03Check;
 pub static C03: C03Check = C03Check;
 
 const MTYPES: &[&str] = &["SINT", "INT", "DINT", "LINT", "USINT", "UINT", "UDINT", "ULINT", "REAL", "LREAL", "BYTE", "WORD", "DWORD", "LWORD", "TIME", "LTIME"];
-const DEBUG_TYPES: &[&str] = &["BOOL", "SINT", "INT", "DINT", "LINT", "USINT", "UINT", "UDINT", "ULINT", "BYTE", "WORD", "DWORD", "LWORD"];
+const DEBUG_TYPES: &[&str] = &["BOOL", "SINT", "INT", "DINT", "LINT", "USINT", "UINT", "UDINT", "ULINT", "BYTE", "WORD", "DWORD", "LWORD", "REAL", "LREAL", "TIME", "STRING", "DATE"];
+/// values sent through the control endpoint: in range, top bit set, just out of range, negative, another kind
+const DEBUG_VALUES: &[&str] = &[
+    "5", "-1", "127", "128", "-128", "-129", "255", "256", "32767", "32768", "-32769", "65535", "65536", "2147483647", "2147483648", "4294967295", "4294967296", "9223372036854775807", "TRUE",
+];
+
+/// does the decimal `v` fit the integer / bit-string type `ty`?
+fn fits(ty: &str, v: i128) -> bool {
+    let (lo, hi): (i128, i128) = match ty {
+        "SINT" => (-128, 127),
+        "INT" => (-32768, 32767),
+        "DINT" => (-2147483648, 2147483647),
+        "LINT" => (i64::MIN as i128, i64::MAX as i128),
+        "USINT" | "BYTE" => (0, 255),
+        "UINT" | "WORD" => (0, 65535),
+        "UDINT" | "DWORD" => (0, 4294967295),
+        "ULINT" | "LWORD" => (0, u64::MAX as i128),
+        _ => return false,
+    };
+    (lo..=hi).contains(&v)
+}
 const MECHS: &[&str] = &[
     "assign", "init", "fb-input", "fb-inout", "func-return", "struct-field", "array-elem", "subrange-assign", "arith-literal", "for-control", "fb-output-read", "for-control-empty", "for-control-exit",
-    "subrange-default",
+    "subrange-default", "fb-positional-eno", "func-positional-eno", "access-partial",
 ];
 
 fn lit(ty: &str, v: i64) -> String {
@@ -83,6 +103,34 @@ pub fn matrix_source(mech: &str, dst: &str, src: &str) -> String {
             };
             out.push_str(&format!(
                 "TYPE Sub : {dst} ({lo}..{hi}); END_TYPE\nTYPE St : STRUCT f : Sub; g : DINT; END_STRUCT END_TYPE\nPROGRAM Main\nVAR\n  d : Sub;\n  st : St;\n  a : ARRAY[0..2] OF Sub;\n  n : DINT;\nEND_VAR\nn := n + 1;\nEND_PROGRAM\n"
+            ));
+        }
+        // positional calls of POUs that declare EN/ENO themselves: the output after ENO goes to the caller's variable
+        "fb-positional-eno" => out.push_str(&format!(
+            "FUNCTION_BLOCK Fb\nVAR_INPUT\n  EN : BOOL;\n  a : {src};\nEND_VAR\nVAR_OUTPUT\n  ENO : BOOL;\n  q : {dst};\nEND_VAR\nq := a;\nEND_FUNCTION_BLOCK\nPROGRAM Main\nVAR\n  fb : Fb;\n  s : {src} := {s};\n  d : {dst};\nEND_VAR\nfb(s, d);\nEND_PROGRAM\n"
+        )),
+        "func-positional-eno" => out.push_str(&format!(
+            "FUNCTION F : {src}\nVAR_INPUT\n  EN : BOOL;\n  a : {src};\nEND_VAR\nVAR_OUTPUT\n  ENO : BOOL;\n  q : {dst};\nEND_VAR\nq := {};\nF := a;\nEND_FUNCTION\nPROGRAM Main\nVAR\n  s : {src} := {s};\n  z : {src};\n  d : {dst};\nEND_VAR\nz := F(s, d);\nEND_PROGRAM\n",
+            lit(dst, 7)
+        )),
+        // a program writes through access paths that select a bit / byte / word / dword of a bit-string variable
+        "access-partial" => {
+            let mut acc = String::from("  Bit3 : P1.d.%X3 : BOOL READ_WRITE;\n");
+            let mut body = String::from("Bit3 := TRUE;\n");
+            if dst != "BYTE" {
+                acc.push_str("  Byte1 : P1.d.%B1 : BYTE READ_WRITE;\n");
+                body.push_str("Byte1 := BYTE#16#AB;\n");
+            }
+            if dst == "DWORD" || dst == "LWORD" {
+                acc.push_str("  Word1 : P1.d.%W1 : WORD READ_WRITE;\n");
+                body.push_str("Word1 := WORD#16#BEEF;\n");
+            }
+            if dst == "LWORD" {
+                acc.push_str("  Dword1 : P1.d.%D1 : DWORD READ_WRITE;\n");
+                body.push_str("Dword1 := DWORD#16#CAFE0001;\n");
+            }
+            out.push_str(&format!(
+                "PROGRAM Main\nVAR\n  d : {dst} := {s};\n  n : INT;\nEND_VAR\nn := n + INT#1;\nIF n = INT#2 THEN\n{body}END_IF;\nEND_PROGRAM\nCONFIGURATION C\nPROGRAM P1 : Main;\nVAR_ACCESS\n{acc}END_VAR\nEND_CONFIGURATION\n"
             ));
         }
         _ => out.push_str(&format!(
@@ -312,7 +360,12 @@ impl C03Check {
     fn run_debugger(&self, case: &Json, stats: &mut Stats) -> Result<(), Violation> {
         let ty = case["ty"].as_str().unwrap_or("INT");
         let request = case["request"].as_str().unwrap_or("var.force");
-        let init = if ty == "BOOL" { "FALSE".to_string() } else { lit(ty, 1) };
+        let init = match ty {
+            "BOOL" => "FALSE".to_string(),
+            "STRING" => "'a'".to_string(),
+            "DATE" => "D#2020-01-02".to_string(),
+            _ => lit(ty, 1),
+        };
         let source = format!("CONFIGURATION C\nVAR_GLOBAL\n  g : {ty} := {init};\n  n : DINT;\nEND_VAR\nPROGRAM P0 : Main;\nEND_CONFIGURATION\nPROGRAM Main\nVAR_EXTERNAL\n  n : DINT;\nEND_VAR\nn := n + 1;\nEND_PROGRAM\n");
         let mut rt = match guard("compile", || world::compile(&source))? {
             Ok(rt) => rt,
@@ -320,7 +373,7 @@ impl C03Check {
         };
         let global_tags = world::tag_walk(&rt).into_iter().filter(|(p, _)| !p.contains('.')).collect::<Vec<_>>();
         let (state, _debug) = control_state(&mut rt);
-        let value = if ty == "BOOL" { "TRUE" } else { "5" };
+        let value = case["value"].as_str().unwrap_or(if ty == "BOOL" { "TRUE" } else { "5" });
         let line = json!({"id": 1, "type": request, "params": {"target": "global:g", "value": value}}).to_string();
         let reply = guard("control request", || trust_runtime::control::verif_handle_request_line(&line, &state, Some("sim")))?;
         let reply_json: Json = reply.as_deref().and_then(|r| serde_json::from_str(r).ok()).unwrap_or(Json::Null);
@@ -332,8 +385,10 @@ impl C03Check {
         }
         stats.inc("debugger.request_accepted");
         let mut h = Fnv::new();
-        h.str(request).str(ty);
+        h.str(request).str(ty).str(value);
         stats.nontrivial(h.finish());
+        let in_range = value.parse::<i128>().is_ok_and(|v| fits(ty, v));
+        stats.inc(if in_range { "debugger.value_in_range" } else { "fault.debugger_value_not_representable" });
         for cycle in 0..2 {
             rt.set_current_time(Duration::from_nanos((cycle + 1) * 10_000_000));
             if guard("execute_cycle", || rt.execute_cycle())?.is_err() {
@@ -342,7 +397,7 @@ impl C03Check {
             if let Some((path, want, got)) = world::tag_drift(&rt, &global_tags).first() {
                 let kind = if request == "set" { "debugger-write" } else { "debugger-force" };
                 return Err(Violation::new(
-                    format!("tag/{kind}/{}", if *want == "LINT" { "same-type" } else { "mixed-type" }),
+                    format!("tag/{kind}/{}", if !in_range && case["value"].is_string() { "not-representable" } else if *want == "LINT" { "same-type" } else { "mixed-type" }),
                     format!("{request} global:g := {value} through the control endpoint: {path} declared {want} holds {got} after cycle {cycle}"),
                 ));
             }
@@ -361,8 +416,15 @@ impl C03Check {
                     }
                     continue;
                 }
-                if matches!(*mech, "arith-literal" | "for-control" | "for-control-empty" | "for-control-exit") {
+                if matches!(*mech, "arith-literal" | "for-control" | "for-control-empty" | "for-control-exit" | "fb-positional-eno" | "func-positional-eno") {
                     cells.push((mi, di, di));
+                    continue;
+                }
+                if *mech == "access-partial" {
+                    // bit-string rows only
+                    if (10..14).contains(&di) {
+                        cells.push((mi, di, di));
+                    }
                     continue;
                 }
                 for si in 0..MTYPES.len() {
@@ -428,6 +490,17 @@ impl C03Check {
                 format!("{kind}/{mech}/{class}"),
                 format!("{mech} {dst}<-{src} after 2 cycles: {path} declared {want} holds {got}\n{source}"),
             ));
+        }
+        if mech == "access-partial" {
+            // the same selectors written from outside (Runtime::write_access)
+            for (name, v) in [("Bit3", Value::Bool(false)), ("Byte1", Value::Byte(0x5A)), ("Word1", Value::Word(0x1234)), ("Dword1", Value::DWord(0x89AB_CDEF))] {
+                if guard("write_access", || rt.write_access(name, v.clone()))?.is_ok() {
+                    stats.inc("matrix.partial_access_written_from_outside");
+                }
+                if let Some((path, want, got, kind)) = declared_walk(&rt).first() {
+                    return Err(Violation::new(format!("{kind}/access-partial-external/{class}"), format!("write_access({name}) on {dst}: {path} declared {want} holds {got}\n{source}")));
+                }
+            }
         }
         if mech == "subrange-default" {
             for mode in [trust_runtime::RestartMode::Cold, trust_runtime::RestartMode::Warm] {
@@ -554,7 +627,7 @@ impl Check for C03Check {
         "C03"
     }
     fn cases(&self, tier: Tier) -> u64 {
-        let m = Self::matrix_cells().len() as u64 + DEBUG_TYPES.len() as u64 * 2;
+        let m = Self::matrix_cells().len() as u64 + (DEBUG_TYPES.len() * DEBUG_VALUES.len()) as u64 * 2;
         match tier {
             Tier::Quick => m + 1_500,
             Tier::Thorough => m + 30_000,
@@ -585,8 +658,9 @@ impl Check for C03Check {
             return json!({"kind": "matrix", "mech": MECHS[mi], "dst": MTYPES[di], "src": MTYPES[si]});
         }
         let dbg = index as usize - cells.len();
-        if dbg < DEBUG_TYPES.len() * 2 {
-            return json!({"kind": "debugger", "ty": DEBUG_TYPES[dbg / 2], "request": if dbg % 2 == 0 { "set" } else { "var.force" }});
+        if dbg < DEBUG_TYPES.len() * DEBUG_VALUES.len() * 2 {
+            let (t, v) = ((dbg / 2) / DEBUG_VALUES.len(), (dbg / 2) % DEBUG_VALUES.len());
+            return json!({"kind": "debugger", "ty": DEBUG_TYPES[t], "value": DEBUG_VALUES[v], "request": if dbg % 2 == 0 { "set" } else { "var.force" }});
         }
         let mut kr = rng.fork("knobs");
         let mut pr = rng.fork("project");
